@@ -4,7 +4,7 @@ CONSTANTS
   Builders = {"B1", "B2"}
   Fields = {"redir", "compress"}
   Vals = {0, 1}
-  HNames = {"x-a", "accept-encoding"}
+  HNames = {"cookie", "accept-encoding"}
   HVals = {"1", "2"}
   Depth = 4
 CONSTRAINT Bound
